@@ -383,3 +383,31 @@ benign("rn-c15-compressed", "C15", FAST, "compressed_size", "enc_len", count=5)
 benign("rn-c02-last-block", ["C02", "C15", "C08"], FCOMP, "last_block", "is_final", count=7)
 benign("rn-c02-uncompressed", ["C02", "C15", "C08"], FCOMP, "uncompressed_data", "block_buf", count=17)
 benign("rn-c12-table-size", "C12", FSEE, "fn next_position(mut p: usize, table_size: usize) -> usize {\n    p += (table_size >> 1) + (table_size >> 3) + 3;\n    p &= table_size - 1;", "fn next_position(mut p: usize, size: usize) -> usize {\n    p += (size >> 1) + (size >> 3) + 3;\n    p &= size - 1;")
+
+
+# ---- patch-based cases ---------------------------------------------------------------------
+def patch_case(name, kind, prop, patch, expect=""):
+    CASES.append({"name": name, "kind": kind, "prop": prop, "expect": expect, "edits": [{"patch": patch}]})
+
+
+# helper extraction (FrameDecoderState::read_header shared by new/reset) done right: nothing may fire
+patch_case("refactor-read-header-helper", "benign", ["C07", "C09", "C10", "C11"], "selftest/patches/benign-read-header-helper.diff")
+
+
+# independently produced breaking changes (seeded/<id>/): the property's own check must report them
+def _seeds():
+    import json
+    import os
+    root = os.path.join(os.path.dirname(os.path.dirname(os.path.abspath(__file__))), "seeded")
+    for d in sorted(os.listdir(root)) if os.path.isdir(root) else []:
+        m = os.path.join(root, d, "meta.json")
+        if not os.path.exists(m):
+            continue
+        meta = json.load(open(m))
+        if not meta.get("confirmed"):
+            continue
+        prop = meta["breaks_property"]
+        patch_case("seed-" + d, "mutant", prop, "seeded/%s/patch.diff" % d, expect=prop + ".")
+
+
+_seeds()
